@@ -17,6 +17,7 @@ import EngineModel.Api.CratesV1
 import EngineModel.Db.V2Crates
 import EngineModel.TracksV2.Lens
 import EngineModel.Spec.Dir
+import EngineModel.TracksV1.Stmts
 import Proofs.Dir
 
 namespace EngineModel.Properties.C16
@@ -185,6 +186,25 @@ theorem C16_tracks_v2 (o : TracksV2.FOps)
         (fun d => TracksV2.Db.snapshot o d id)))).1
       = Conn.idle ((items.filterMap Sum.getLeft?).foldl (fun d c => (TracksV2.Db.set o d c.1 c.2).1) db) :=
   C16_api_history _ _ _ _
+
+/-- One public mutating track call of the 1.x model (`create_track`, `track::update`, a setter, `remove_track`) as a
+state transformer: a call that throws leaves the tables as they were. -/
+def tracksV1Step (o : EngineModel.TracksV1.Fl.FOps) (d : TracksV1.Db) (op : TracksV1.TOp) : TracksV1.Db :=
+  match TracksV1.topStep o d op with
+  | .ok d' => d'
+  | _ => d
+
+/-- Schema-1.x tracks (`TracksV1`): any accessor of the model — a getter `dbGet o · id f`, `snapshot()`
+(`dbSnap`), `is_valid` — interleaved anywhere, any number of times, in a history of track calls leaves the tables
+exactly as the history without it, and answers from the state the mutating calls before it produce. -/
+theorem C16_tracks_v1 {γ : Type} (o : EngineModel.TracksV1.Fl.FOps) (items : List (TracksV1.TOp ⊕ (Nat × (TracksV1.Db → γ))))
+    (ans : TracksV1.Db → γ) (db : TracksV1.Db) :
+    (run (Conn.idle db) (items.map (histOp (tracksV1Step o) ans))).1
+      = Conn.idle ((items.filterMap Sum.getLeft?).foldl (tracksV1Step o) db) ∧
+    ∀ (pre : List (TracksV1.TOp ⊕ (Nat × (TracksV1.Db → γ)))) (n : Nat) (q : TracksV1.Db → γ),
+      (step (run (Conn.idle db) (pre.map (histOp (tracksV1Step o) ans))).1 (apiObserver n q)).2
+        = some (q ((pre.filterMap Sum.getLeft?).foldl (tracksV1Step o) db)) :=
+  ⟨C16_api_history _ _ _ _, fun pre n q => C16_api_answers _ _ pre n q db⟩
 
 /-! ### loading, `database_exists`, `create_or_load_database` on an existing library: observers of the directory
 
